@@ -35,6 +35,8 @@ module Nat :
   val leb : nat -> nat -> bool
 
   val ltb : nat -> nat -> bool
+
+  val min : nat -> nat -> nat
  end
 
 val tl : 'a1 list -> 'a1 list
